@@ -4,9 +4,9 @@ from propdefs.common import STD_ASSUME
 PROP = {
     "driver": "c11_minimisers",
     # in-regime premature stops carry the signature of finding D15; measured rate on the pinned tree ~1e-5 (3 in 16 seeds x 16500 cases; expected 0.25 per quick run, P(more than 5) = 3e-7)
-    # far cosh starts that end on Brent's iteration cap carry the signature of finding D37; measured rate ~5e-6 of the far-start cases (1 in 25 seeds x 8000)
+    # far cosh starts that end on Brent's iteration cap carry the signature of finding D37; measured: 0-2 per quick run of 16500 far-start cases (20 seeds), 0 in 413000 at the thorough tier; seeded change C11-r6m3 produces 380 per quick run
     "rate_limits": {"nd-in-regime-premature-stop(rate-limited)": {"abs": 5, "frac": 1e-4},
-                    "1d-far-cosh-start-iteration-cap(rate-limited)": {"abs": 3, "frac": 2e-4}},
+                    "1d-far-cosh-start-iteration-cap(rate-limited)": {"abs": 12, "frac": 1e-3}},
     "shards": {"quick": 8, "thorough": 16},
     "rule": "1D: 8 objective families (quadratic, quartic-flat, cosh, Morse well, multimodal parabola+oscillation, plateau with dip, |t|^p, even multimodal with exactly tied starts) x starts up to 20 length scales (cosh: 709) "
             "off-centre x steps 1e-3..1e3 of either sign x tol 1e-12..1e-3; ND (n=1..6): random SPD quadratics (condition <= 1e4, random rotation, f0 = 0 or not) and "
